@@ -94,7 +94,7 @@ CHECKS = {
            "match: the promise of the exhaustive verdict is discharged by the C09 theorem through conformance. For arbitrary programs the statement is proved given "
            "that promise (C03_not_is_a_filter); per-entry characterisation of the filtrate. C03_negation_of_flat_patterns_is_a_filter: for negations every alternative of "
            "which is a flat rule-checked pattern (`**/target/**`, `*.md`, `src/**/*.tmp`, any() of such) the two partition programs together decide exactly the "
-           "documented language of the pattern and not() is the per-entry filter, with the exhaustiveness promise proved rather than assumed; the same for a negated glob that builds, has no repetition and is not an alternation at its top (`**/{.git,node_modules}/**`: C03_negation_of_a_built_glob_without_repetitions_is_a_filter, through C09 for such globs), and in general whenever the verdicts of the alternatives are sound (C03_negation_is_a_filter_when_the_verdicts_of_its_alternatives_are_sound); every negated glob that builds, has no repetition and cannot end with a separator, whatever its shape, and every combinator of such globs (C03_negation_of_any_built_glob_without_repetitions_is_a_filter, C03_negation_of_a_combinator_of_built_globs_without_repetitions_is_a_filter: the alternatives inherit what the rule checker guarantees of the whole). Tie: partition programs and item sequences. "
+           "documented language of the pattern and not() is the per-entry filter, with the exhaustiveness promise proved rather than assumed; the same for a negated glob that builds, has no repetition and is not an alternation at its top (`**/{.git,node_modules}/**`: C03_negation_of_a_built_glob_without_repetitions_is_a_filter, through C09 for such globs), and in general whenever the verdicts of the alternatives are sound (C03_negation_is_a_filter_when_the_verdicts_of_its_alternatives_are_sound); every negated glob that builds, has no repetition and cannot end with a separator, whatever its shape, and every combinator of such globs (C03_negation_of_any_built_glob_without_repetitions_is_a_filter, C03_negation_of_a_combinator_of_built_globs_without_repetitions_is_a_filter: the alternatives inherit what the rule checker guarantees of the whole); and with repetitions that are required, bounded above or holding a bounded token, with leaf-terminal bodies (C03_negation_of_any_built_glob_with_required_repetitions_is_a_filter, through C09 and C06 with repetitions). Tie: partition programs and item sequences. "
            "Oracle: walk.not(p) vs the underlying walk filtered entry by entry with is_match.",
     'C13': "Proved: the combinator stack machine (walkdir stack + layers with residue transitions) refines the pruned pre-order specification for all trees and stacks. "
            "Tie: full feed sequences observed by a pass-through filter_entry. Oracle: nothing beneath a discarded directory is fed downstream; no sibling is lost.",
